@@ -1465,6 +1465,14 @@ def reseed_cfg(cfg):
         out = {k: reseed_cfg(v) for k, v in cfg.items()}
         if cfg.get("fam") in ("pointwise_affine", "permutation") and "pseed" in cfg and cfg.get("kind") != "reverse":
             out["pseed"] = cfg["pseed"] + 1
+        if str(cfg.get("fam", "")).startswith("coupling_") and isinstance(cfg.get("mask"), list):
+            # another mask with the same number of transformed features (what create_random_binary_mask gives under another
+            # seed): the index buffers of the layer travel in the state dict, the conditioner's sizes do not change
+            m = list(cfg["mask"])
+            alt = m[::-1]
+            if [v > 0 for v in alt] == [v > 0 for v in m]:
+                alt = m[1:] + m[:1]
+            out["mask"] = alt
         return out
     if isinstance(cfg, list):
         return [reseed_cfg(v) for v in cfg]
